@@ -191,7 +191,33 @@ func c18RequestURL(r *Report, wr *ssa.Function) {
 		r.Lost(key, rule, "http.NewRequest not found")
 		return
 	}
-	u := AccessPath(CallArg(nr[0].Common(), 1), 0)
+	uv := CallArg(nr[0].Common(), 1)
+	u := AccessPath(uv, 0)
+	// the URL may be computed by a helper of the same package: then every value the helper returns must be DIDToURL(..).String()
+	if ex, ok := StripConv(uv).(*ssa.Extract); ok {
+		if c, ok := ex.Tuple.(*ssa.Call); ok {
+			if h := c.Common().StaticCallee(); h != nil && h.Pkg == wr.Pkg && len(h.Blocks) > 0 {
+				all, any := true, false
+				for _, b := range h.Blocks {
+					if ret, ok := b.Instrs[len(b.Instrs)-1].(*ssa.Return); ok && ex.Index < len(ret.Results) {
+						rv := Unspill(ret.Results[ex.Index])
+						if cs, isC := ConstString(rv); isC && cs == "" {
+							continue // the error return
+						}
+						ap := AccessPath(rv, 0)
+						if strings.Contains(ap, "DIDToURL(") && strings.Contains(ap, "String(") {
+							any = true
+						} else {
+							all = false
+						}
+					}
+				}
+				if all && any && ParamV("id").M(c.Common().Args[0]) {
+					u = "DIDToURL(id) via " + r.P.FuncName(h) + " … String("
+				}
+			}
+		}
+	}
 	if !strings.Contains(u, "DIDToURL(id)") || !strings.Contains(u, "String(") {
 		r.Bad(key, rule, r.P.Pos(nr[0].Pos()), "request URL is "+u)
 		return
@@ -393,4 +419,46 @@ func c18NutsDeactivated(r *Report) {
 		Alt:   []Check{Check{Desc: "resolveMetadata.AllowDeactivated", Pass: IsTrue, Values: fieldLoads("ResolveMetadata", "AllowDeactivated")}}})
 	// asking for the latest version of a deactivated DID fails instead of returning an older active version
 	r.Refuse(Refuse{ID: "C18.deactivated.nuts-store.latest-fails", Fn: cl, Cond: CallCheck(Fn(ds, "", "latestNonDeactivatedRequested"), -1, IsTrue)})
+	// walking back to an older version happens only past versions that are active, or deactivated-but-allowed, or not yet in
+	// effect at the requested time: the step to the previous version is never taken from a deactivated version that the
+	// caller may not see and that was in effect at the requested time
+	stepBack := InstrEffect("step to the previous version", func(in ssa.Instruction) bool {
+		c, ok := in.(*ssa.Call)
+		if !ok {
+			return false
+		}
+		f := c.Common().StaticCallee()
+		if f == nil || f.String() != "fmt.Sprintf" {
+			return false
+		}
+		for _, el := range VariadicElems(c) {
+			if strings.Contains(AccessPath(el, 0), "Version") {
+				return true
+			}
+		}
+		return false
+	})
+	r.Gate(Gate{ID: "C18.deactivated.nuts-store.no-step-back-past-effective-deactivation", Fn: cl, Effect: stepBack,
+		Check: CallCheck(Fn(ds, "", "deactivatedAtRequestedTime"), -1, IsFalse),
+		Alt:   []Check{Check{Desc: "metadata.Deactivated is false", Pass: IsFalse, Values: fieldLoads("documentMetadata", "Deactivated")}}})
+	dat := p.Func(ds, "", "deactivatedAtRequestedTime")
+	r.Gate(Gate{ID: "C18.deactivated.nuts-store.at-time.false-only-for-listed-reasons", Fn: dat, Effect: ReturnsConstBoolVal(0, false),
+		Check: CmpCheck("resolveMetadata == nil", token.EQL, ParamV("resolveMetadata"), NilV(), true),
+		Alt: []Check{
+			Check{Desc: "resolveMetadata.AllowDeactivated", Pass: IsTrue, Values: fieldLoads("ResolveMetadata", "AllowDeactivated")},
+			CmpCheck("ResolveTime == nil", token.EQL, FieldV("ResolveMetadata", "ResolveTime"), NilV(), true),
+			CmpCheck("Hash != nil", token.EQL, FieldV("ResolveMetadata", "Hash"), NilV(), false),
+			CmpCheck("SourceTransaction != nil", token.EQL, FieldV("ResolveMetadata", "SourceTransaction"), NilV(), false)}})
+	{
+		rule := "ARG: deactivatedAtRequestedTime compares the version's Updated time with the requested ResolveTime"
+		key := "C18.deactivated.nuts-store.at-time.updated-vs-requested"
+		if dat == nil {
+			r.Lost(key, rule, "function not found")
+		} else if n := len(TimeOrderSites(dat, FieldV("ResolveMetadata", "ResolveTime"), FieldV("documentMetadata", "Updated"))) + len(TimeOrderSites(dat, FieldV("documentMetadata", "Updated"), FieldV("ResolveMetadata", "ResolveTime"))); n < 1 {
+			r.Bad(key, rule, r.P.Pos(dat.Pos()), "no Before/After comparison between metadata.Updated and resolveMetadata.ResolveTime")
+		} else {
+			r.Sites += n
+			r.OK(key, rule, r.P.Pos(dat.Pos()), fmt.Sprintf("%d comparison(s)", n), true)
+		}
+	}
 }
